@@ -217,6 +217,22 @@ def _rotations(ctx, cfg):
         q2 = unitaries.rotate_rho(dm, basis, space)
         ctx.eq_arrays("rotate_rho/model-rho == U rho U^dagger", U.cdec(q2._arr), UrU, z3_confirm=False)
 
+    # ---- the same explicit states in another memory layout (transposed storage, as `x.t()` / a slice of a larger buffer
+    # give): the statement is about the values of psi / rho, not about how the caller happens to store them
+    psi_nc = st.SymTensor(np.ascontiguousarray(psi_t._arr.T)).t()
+    rho_nc = st.SymTensor(np.ascontiguousarray(rho_t._arr.transpose(2, 1, 0))).permute(2, 1, 0)
+    big = np.empty((2, D + 1, D + 2), dtype=object)
+    big[...] = alg.par("unrelated_buffer_entry")
+    big[:, :D, 1:D + 1] = rho_t._arr
+    rho_sl = st.SymTensor(big)[:, :D, 1:D + 1]
+    ctx.holds("layout/the non-contiguous test states are non-contiguous", (not psi_nc.is_contiguous()) and (not rho_nc.is_contiguous()) and (D == 1 or not rho_sl.is_contiguous()))
+    ctx.eq_arrays("layout/_kron_mult/transposed-storage vector == (u0 x ... x un-1) psi", U.cdec(unitaries._kron_mult(tl, psi_nc)._arr), Upsi, z3_confirm=False)
+    ctx.eq_arrays("layout/_kron_mult/transposed-storage matrix == U rho", U.cdec(unitaries._kron_mult(tl, rho_nc)._arr), U.matmat(Ud, rho_c), z3_confirm=False)
+    ctx.eq_arrays("layout/rotate_psi/transposed-storage explicit psi == U psi", U.cdec(unitaries.rotate_psi(cw, basis, space, psi=psi_nc)._arr), Upsi, z3_confirm=False)
+    ctx.eq_arrays("layout/rotate_rho/transposed-storage explicit rho == U rho U^dagger", U.cdec(unitaries.rotate_rho(dm, basis, space, rho=rho_nc)._arr), UrU, z3_confirm=False)
+    ctx.eq_arrays("layout/rotate_rho/explicit rho that is a window of a larger buffer == U rho U^dagger", U.cdec(unitaries.rotate_rho(dm, basis, space, rho=rho_sl)._arr), UrU, z3_confirm=False)
+    ctx.holds("layout/input-not-written", psi_nc._stor.version == 0 and rho_nc._stor.version == 0 and rho_sl._stor.version == 0)
+
     # ---- rotated amplitudes / probabilities of a batch of outcomes (repeats, any order)
     # (also a batch of exactly 2^n rows that is NOT the ordered basis: the number of rows says nothing about their content)
     orders = [("", list(range(D))[::-1] + [0, D - 1, 0]), ("2^n-rows/", (list(range(1, D))[::-1] + [D - 1]) if D > 1 else [0])]
